@@ -28,7 +28,7 @@ type c13Base struct {
 const c13Wall = 120 * time.Second
 
 // c13BaseBudget: a tick budget no well-formed text of this size needs.
-func c13BaseBudget(text string) int64 { return 20_000_000 + 100_000*int64(len(text)) }
+func c13BaseBudget(text string) int64 { return 20_000_000 + 20_000*int64(len(text)) }
 
 var (
 	c13Once  sync.Once
@@ -202,6 +202,7 @@ func execC13(ctx *Ctx, in *Input) *Result {
 	var baseText string
 	var baseTicks int64
 	var baseHang *enga.Obs
+	baseItselfHangs := false
 	if in.Text != "" && in.Corrupt == nil {
 		baseText = in.Text
 	} else {
@@ -220,6 +221,7 @@ func execC13(ctx *Ctx, in *Input) *Result {
 				// the undamaged base does not finish; that run (made once per process) is the observation
 				baseHang = bases[bi].HangObs
 				baseTicks = 5000
+				baseItselfHangs = true
 			}
 		}
 	}
@@ -227,6 +229,13 @@ func execC13(ctx *Ctx, in *Input) *Result {
 	if in.Corrupt != nil {
 		text = in.Corrupt.Apply(baseText)
 		res.Count("fault_"+in.Corrupt.Kind, 1)
+	}
+	explicitBudget := int64(0)
+	if in.Text != "" && in.Corrupt == nil {
+		// an explicit text judged as it stands (a minimised case whose damage has been applied): no base to compare
+		// with, so the budget is the one no well-formed text of this size needs
+		explicitBudget = c13BaseBudget(text)
+		baseTicks = 1
 	}
 	if baseTicks == 0 {
 		// an explicit base (minimised replay): measure it under a budget no well-formed text of this size needs
@@ -236,9 +245,14 @@ func execC13(ctx *Ctx, in *Input) *Result {
 			// the base itself does not finish: damage is not even needed; judge the base as the text
 			baseTicks = 5000
 			text = baseText
+			baseItselfHangs = true
 		}
 	}
 	budget := 200*baseTicks + 1_000_000
+	budgetNote := "200 x base + 1e6"
+	if explicitBudget > 0 {
+		budget, budgetNote = explicitBudget, "2e7 + 2e4 x bytes, far above any well-formed text of this size"
+	}
 	sc := enga.Canonical()
 	if len(in.Scheds) > 0 {
 		sc = in.Scheds[0]
@@ -264,9 +278,18 @@ func execC13(ctx *Ctx, in *Input) *Result {
 			res.Harness = fmt.Sprintf("simulated run ended %q (%s) but the real CLI terminated (%s): the tick budget or the seams misrepresent the code", o.Outcome, o.Diag, note)
 			return res
 		}
-		res.Viol = &Violation{Class: "hang", Key: "hang:" + hangShape(text),
-			Msg: fmt.Sprintf("%s of %s (%s, mode %s/%s): %s after %d ticks (budget %d = 200 x base + 1e6); the real CLI on the same %d bytes was killed after 10 s. Text ends with: %q",
-				in.Corrupt.Kind, in.Base, fmt.Sprint(*in.Corrupt), in.Mode, in.Variant, o.Outcome, o.Ticks, budget, len(text), tailStr(text, 40))}
+		corr := in.Corrupt
+		if corr == nil {
+			corr = &Corruption{Kind: "explicit text"}
+		}
+		sub := 0
+		if baseItselfHangs {
+			sub = 1 // tells the shrinker that the undamaged base is the failing text
+			budget, budgetNote = c13BaseBudget(text), "2e7 + 2e4 x bytes, far above any well-formed text of this size; the UNDAMAGED base does not finish"
+		}
+		res.Viol = &Violation{Class: "hang", Key: "hang:" + hangShape(text), Sub: sub,
+			Msg: fmt.Sprintf("%s of %s (%s, mode %s/%s): %s after %d ticks (budget %d = %s); the real CLI on the same %d bytes was killed after 10 s. Text ends with: %q",
+				corr.Kind, in.Base, fmt.Sprint(*corr), in.Mode, in.Variant, o.Outcome, o.Ticks, budget, budgetNote, len(text), tailStr(text, 40))}
 		return res
 	}
 	res.Keys = append(res.Keys, hkey(text))
